@@ -81,3 +81,29 @@ def run(ctx):
 
     from engine.run import borrow
     borrow(ctx, 'C18', ['CALC-RESTORE'], 'the SFC_CALC_* queries must leave normalisation setting and read position as they were')
+
+    ctx.rule('MAP-ALLOC', 'SFC_GET_CHANNEL_MAP_INFO copies sf.channels entries out of psf->channel_map: every allocation stored into psf->channel_map has exactly sf.channels entries '
+             '(calloc (psf->sf.channels, sizeof entry)), or is the caller\'s datasize after the rejecting test datasize != sizeof entry * sf.channels', floor=4)
+    from engine.util import assigned_lvalues as _alm
+    nm = 0
+    for g in sorted(prog.lib_fns(), key=lambda g: (g.file, g.line)):
+        for lv, a, r in _alm(g):
+            if lv != 'psf->channel_map' or r is None:
+                continue
+            ru = g.unwrap(r)
+            if ru.get('k') != 'CallExpr' or ru.get('callee') not in ('calloc', 'malloc'):
+                continue
+            nm += 1
+            args = [g.s(g.unwrap(x)) for x in g.args(ru)]
+            if ru['callee'] == 'calloc':
+                ok = args[0] == 'psf->sf.channels'
+                why = 'calloc (%s, %s)' % (args[0], args[1])
+            else:
+                V = args[0]
+                tests = [n for n in g.walk() if n['k'] == 'IfStmt' and ('%s != ' % V) in g.s(n['cond']) and 'psf->sf.channels' in g.s(n['cond']) and g.cfg.dominates(n, a)
+                         and any(x['k'] == 'ReturnStmt' for x in g.walk(n['then']))]
+                ok = bool(tests)
+                why = 'malloc (%s) %s' % (V, 'after the rejecting test `%s`' % g.s(tests[0]['cond'])[:90] if tests else 'with a size that is not tied to sf.channels')
+            ctx.ob('MAP-ALLOC', '%s#%d' % (g.name, nm), ok, g.loc(a), why + ('' if ok else ': the table can be shorter than sf.channels entries, the channel map commands read past it'), None)
+    ctx.require(nm >= 4, 'only %d allocations of psf->channel_map found' % nm)
+
